@@ -69,7 +69,79 @@ def theory_axioms(formulas):
             ax.append(z3.Implies(x <= y, dsl.EXP(x) <= dsl.EXP(y)))
             ax.append(z3.Implies(y <= x, dsl.EXP(y) <= dsl.EXP(x)))
     ax.extend(ty.id_axioms())
+    ax.extend(cnt_unfold_axioms(formulas))
+    ax.extend(bag_heap_axioms(formulas))
+    ax.extend(inf_axioms(formulas))
     return ax
+
+
+def inf_axioms(formulas):
+    return [ty.INF > z3.RealVal("1" + "0" * 30)]
+
+
+def bag_heap_axioms(formulas):
+    """The (quantified, pattern-guarded) axioms of cnt and Heap for every ground (array, length) pair that occurs."""
+    from . import heaplib as H
+    out, seen = [], set()
+    for app in collect_apps(formulas, "cnt"):
+        a, n = app.arg(0), app.arg(1)
+        key = (a.get_id(), n.get_id())
+        if key in seen or not (_is_ground(a) and _is_ground(n)):
+            continue
+        seen.add(key)
+        x = z3.Const("cx!ax", H.R)
+        i = z3.Int("ci!ax")
+        out.append(z3.ForAll([x], z3.And(H.CNT(a, n, x) >= 0, z3.Implies(n <= 0, H.CNT(a, n, x) == 0)), patterns=[H.CNT(a, n, x)]))
+        out.append(z3.ForAll([x], z3.Implies(H.CNT(a, n, x) > 0, z3.And(H.WIT(a, n, x) >= 0, H.WIT(a, n, x) < n,
+                                                                         z3.Select(a, H.WIT(a, n, x)) == x)), patterns=[H.CNT(a, n, x)]))
+        out.append(z3.ForAll([i], z3.Implies(z3.And(i >= 0, i < n), H.CNT(a, n, z3.Select(a, i)) > 0), patterns=[z3.Select(a, i)]))
+    for app in collect_apps(formulas, "Heap"):
+        ts, rf, n, P = app.arg(0), app.arg(1), app.arg(2), app.arg(3)
+        key = ("H", app.get_id())
+        if key in seen or not all(_is_ground(t) for t in (ts, rf, n, P)):
+            continue
+        seen.add(key)
+        i = z3.Int("hi!ax")
+        out.append(z3.Implies(z3.And(app, n > 0),
+                              z3.ForAll([i], z3.Implies(z3.And(i >= 0, i < n),
+                                                        z3.Not(H.lt(P, z3.Select(ts, i), z3.Select(rf, i), z3.Select(ts, 0), z3.Select(rf, 0)))),
+                                        patterns=[z3.Select(rf, i)])))
+        out.append(z3.Implies(n <= 0, app))
+    return out
+
+
+def cnt_unfold_axioms(formulas):
+    """cnt(a, n, x) is defined by recursion on n: cnt(a, k+1, x) = cnt(a, k, x) + [a[k] = x] for k >= 0.  Instantiated for the
+    cnt terms whose length argument is syntactically k+1 (no quantifier is handed to the solver)."""
+    out = []
+    for app in collect_apps(formulas, "cnt"):
+        a, n, x = app.arg(0), app.arg(1), app.arg(2)
+        if z3.is_add(n) and n.num_args() == 2:
+            c0, c1 = n.arg(0), n.arg(1)
+            k = c1 if z3.is_int_value(c0) and c0.as_long() == 1 else c0 if z3.is_int_value(c1) and c1.as_long() == 1 else None
+            if k is not None and not z3.is_quantifier(k) and _is_ground(k) and _is_ground(a):
+                from .heaplib import CNT, R
+                if _is_ground(x):
+                    out.append(z3.Implies(k >= 0, app == CNT(a, k, x) + z3.If(z3.Select(a, k) == x, 1, 0)))
+                else:
+                    y = z3.Const("cu!ax", R)
+                    out.append(z3.ForAll([y], z3.Implies(k >= 0, CNT(a, n, y) == CNT(a, k, y) + z3.If(z3.Select(a, k) == y, 1, 0)),
+                                         patterns=[CNT(a, n, y)]))
+    return out
+
+
+def _is_ground(e):
+    seen, stack = set(), [e]
+    while stack:
+        t = stack.pop()
+        if t.get_id() in seen:
+            continue
+        seen.add(t.get_id())
+        if z3.is_var(t):
+            return False
+        if z3.is_app(t):
+            stack.extend(t.children())
+    return True
 
 
 # ============================================================================ arithmetic
@@ -1164,7 +1236,11 @@ def mutate(ex, st, recv, meth, args, kwargs, node):
     if isinstance(recv, ty.SeqV):
         if meth == "append":
             v = ex.coerce(recv.elem, args[0], node)
-            return [(recv.with_at(recv.len, v).with_len(recv.len + 1), None, st, None)]
+            new = recv.with_at(recv.len, v).with_len(recv.len + 1)
+            if isinstance(recv.elem, ty.RefT):
+                from . import heaplib
+                heaplib.append_axiom(st, recv, new, v.ref)
+            return [(new, None, st, None)]
         if meth == "popleft" or (meth == "pop" and args and args[0] == 0):
             out = []
             for taken, s2 in ex.branch(st, recv.len > 0, f"nonempty@L{node.lineno}"):
